@@ -16,8 +16,11 @@ RandClient(i) ==
    nid |-> RE({NONE, "own", "other", "bogus"}), pref |-> RE({"cur", "next", "garbage", NONE}), cn |-> RE(BOOLEAN)]
 
 \* the honest client of identity k, then one capability changed
+\* xp: the client also offers application protocol names, placed in the middle (as the library's dialer does), after the
+\* certificate preference, before the library's chunks, or on both sides - every order is legitimate
 Honest(k) == [op |-> "Connect", kind |-> "auth", k |-> k, ck |-> k, chain |-> "b0", priv |-> TRUE, nsig |-> k, stt |-> RE({NONE, "ok"}),
-              skip |-> FALSE, nid |-> RE({NONE, "own"}), pref |-> RE({"cur", NONE}), cn |-> FALSE]
+              skip |-> FALSE, nid |-> RE({NONE, "own"}), pref |-> RE({"cur", NONE}), cn |-> FALSE,
+              xp |-> RE({NONE, NONE, "mid", "afterPref", "before", "split"})]
 Mutate(c) ==
   {[c EXCEPT !.priv = FALSE], [c EXCEPT !.skip = TRUE], [c EXCEPT !.cn = TRUE], [c EXCEPT !.nsig = "kx"], [c EXCEPT !.nsig = NONE],
    [c EXCEPT !.stt = "forged"], [c EXCEPT !.stt = "unsigned"], [c EXCEPT !.chain = "foreign"], [c EXCEPT !.chain = "self"], [c EXCEPT !.chain = "selfNoSan"],
